@@ -4,7 +4,7 @@
 (* streams with one line removed or duplicated) with the fields Parse extracts, for replay on  *)
 (* the real parser.                                                                            *)
 EXTENDS ProofFile, Json
-CONSTANTS Emit, PoolSize
+CONSTANTS Emit, PoolSize, NInner      \* NInner = number of FRI layers with a commitment in the generated files
 Prefix == << <<<<"ie", 0>>, "Field Element", <<101>>>>, <<<<"c_orig", 0>>, "Hash", <<11>>>>, <<<<"ie", 0>>, "Field Element", <<102>>>>, <<<<"ie", 0>>, "Field Element", <<103>>>>,
              <<<<"c_inter", 0>>, "Hash", <<12>>>>, <<<<"c_comp", 0>>, "Hash", <<13>>>>,
              <<<<"oods", 0>>, "Field Elements", <<21, 22>>>>, <<<<"oods", 0>>, "Field Elements", <<23>>>>,
@@ -12,7 +12,12 @@ Prefix == << <<<<"ie", 0>>, "Field Element", <<101>>>>, <<<<"c_orig", 0>>, "Hash
 FullPool == { <<<<"t0", 0>>, "Field Element", <<61>>>>, <<<<"t0", 0>>, "Hash", <<62>>>>, <<<<"t0", 0>>, "Data", <<63>>>>, <<<<"t0", 0>>, "Hash", <<64>>>>,
           <<<<"t1", 0>>, "Field Element", <<71>>>>, <<<<"t2", 0>>, "Hash", <<81>>>>,
           <<<<"fri", 1>>, "Field Element", <<91>>>>, <<<<"fri", 1>>, "Hash", <<92>>>> }
-Pool == {t \in FullPool : Vals(t)[1] \in (IF PoolSize >= 8 THEN {61, 62, 63, 64, 71, 81, 91, 92} ELSE {61, 62, 63, 64, 71, 91, 92})}
+\* many FRI layers: lines of layers 1, 2, 10 and 11 interleaved ("Layer 1" is a prefix of "Layer 10" and "Layer 11" in the file's paths)
+LayerPool == { <<<<"t0", 0>>, "Field Element", <<61>>>>,
+               <<<<"fri", 1>>, "Field Element", <<91>>>>, <<<<"fri", 1>>, "Hash", <<92>>>>, <<<<"fri", 10>>, "Field Element", <<93>>>>,
+               <<<<"fri", 11>>, "Hash", <<94>>>>, <<<<"fri", 2>>, "Field Element", <<95>>>>, <<<<"fri", 11>>, "Field Element", <<96>>>> }
+Pool == IF NInner > 1 THEN LayerPool ELSE {t \in FullPool : Vals(t)[1] \in (IF PoolSize >= 8 THEN {61, 62, 63, 64, 71, 81, 91, 92} ELSE {61, 62, 63, 64, 71, 91, 92})}
+ASSUME NInner = 1 \/ NInner >= 11
 VARIABLES tail, left, edit
 vars == <<tail, left, edit>>
 Init == tail = <<>> /\ left = Pool /\ edit \in {<<"none", 0>>} \cup {<<"drop", i>> : i \in 1..Len(Prefix)} \cup {<<"dup", i>> : i \in 1..Len(Prefix)}
@@ -25,12 +30,15 @@ EditedPrefix == CASE edit[1] = "drop" -> SubSeq(Prefix, 1, edit[2] - 1) \o SubSe
                   [] edit[1] = "dup" -> SubSeq(Prefix, 1, edit[2]) \o <<Prefix[edit[2]]>> \o SubSeq(Prefix, edit[2] + 1, Len(Prefix))
                   [] OTHER -> Prefix
 Stream == EditedPrefix \o tail
-P1 == Parse(Stream, 1)
+P1 == Parse(Stream, NInner)
 \* every value of a decommitment line lands in exactly one field, in stream order (checked through the definition's own structure)
-Faithful == left = {} =>
+Faithful == (left = {} /\ NInner = 1) =>
     /\ Len(P1.t0_leaves) + Len(P1.t0_auth) = 4 /\ Len(P1.t1_leaves) = 1 /\ Len(P1.t2_auth) = (IF PoolSize >= 8 THEN 1 ELSE 0)
     /\ Len(P1.fri_leaves[1]) = 1 /\ Len(P1.fri_auth[1]) = 1
+LayersFaithful == (left = {} /\ NInner > 1) =>
+    /\ P1.fri_leaves[1] = <<91>> /\ P1.fri_auth[1] = <<92>> /\ P1.fri_leaves[2] = <<95>> /\ P1.fri_leaves[10] = <<93>>
+    /\ P1.fri_leaves[11] = <<96>> /\ P1.fri_auth[11] = <<94>> /\ \A k \in 3..9 : P1.fri_leaves[k] = <<>> /\ P1.fri_auth[k] = <<>>
 \* only complete orderings with the identity prefix, or the edited prefixes with one fixed ordering, are emitted
 EmitReplay == (Emit /\ left = {}) =>
-    PrintT(<<"REPLAY", ToJson([stream |-> Stream, edit |-> edit, wellformed |-> WellFormed(P1), expect |-> P1])>>)
+    PrintT(<<"REPLAY", ToJson([stream |-> Stream, edit |-> edit, wellformed |-> WellFormed(P1), ninner |-> NInner, expect |-> P1])>>)
 =============================================================================
